@@ -31,6 +31,9 @@ Decode(c) == Sym(Kinds[c \div 10], c % 10)
 CInit == s = <<>> /\ tree = {} /\ u = 0
 Append1(c) == /\ \/ Len(s) < FullLen
                  \/ Len(s) < CoreLen /\ c \in Core /\ \A i \in 1..Len(s) : s[i] \in {Decode(x) : x \in Core}
+              /\ LET t == Append(s, Decode(c)) IN        \* an end tag without opener can never become Determined
+                   /\ Count(t, "OO", Len(t)) >= Count(t, "OC", Len(t))
+                   /\ Count(t, "C", Len(t)) >= Count(t, "E", Len(t))
               /\ s' = Append(s, Decode(c)) /\ UNCHANGED <<tree, u>>
 CNext == \E c \in Alpha : Append1(c)
 CSpec == CInit /\ [][CNext]_uVars
@@ -49,7 +52,9 @@ Exts == << ".html", ".py", ".txt", ".htm", ".html.bak", ".HTML" >>
 \* an old-syntax block around an old inline tag; a file without any component tag
 TreeContents == << <<Sym("OO", 2), Sym("T", 1), Sym("C", 1), Sym("OC", 1), Sym("T", 3)>>, <<Sym("T", 1), Sym("T", 4)>> >>
 FileOf(l, e, k) == [path |-> LocDirs[l] \o <<(IF k = 1 THEN "old" ELSE "plain") \o Exts[e]>>, c |-> TreeContents[k]]
-Pool == {FileOf(l, e, k) : l \in LocIdx, e \in ExtIdx, k \in 1..2}
+\* component directories also hold static files (images ...): a file that is not text
+Binary(l) == [path |-> LocDirs[l] \o <<"logo.png">>, c |-> <<Sym("B", 1)>>]
+Pool == {FileOf(l, e, k) : l \in LocIdx, e \in ExtIdx, k \in 1..2} \cup {Binary(l) : l \in LocIdx}
 UInvs == [usepath : {TRUE}, w : {"P", "B", "D"}, cdirs : {"default"}]
          \cup [usepath : {FALSE}, w : {"B"}, cdirs : {"default", "custom"}]
 
